@@ -384,6 +384,27 @@ func runC11(c *Ctx, idx int) {
 			c.Violate(kind, detail(), "%s", msg)
 			return
 		}
+		// express the same genome object again after it was changed in place (same and another network id): the new
+		// network describes the genome as it is now, not as it was when it was expressed first
+		if len(s.Modules) == 0 {
+			_, _ = fresh.VerifMutateToggleEnable(1 + r.Intn(3))
+			_, _ = fresh.VerifMutateGeneReEnable()
+			_, _ = fresh.VerifMutateLinkWeights(1.5, 1.0, false)
+			s2 := snapGenome(fresh)
+			for _, id := range []int{1, 2} {
+				net2, err2 := fresh.Genesis(id)
+				if err2 != nil {
+					c.Violate("genesis-error", map[string]interface{}{"genome": s2}, "Genesis failed when the genome was expressed again: %v", err2)
+					return
+				}
+				c.Count("genomes.expressed_again_after_change", 1)
+				if kind, msg := checkNetwork(c, s2, net2, false); kind != "" {
+					c.Violate("again/"+kind, map[string]interface{}{"genome_when_first_expressed": s, "genome_now": s2, "network_id": id},
+						"expressing the genome again (network id %d) after it was changed in place: %s", id, msg)
+					return
+				}
+			}
+		}
 		if len(s.Modules) > 0 {
 			c.Count("genomes.modular", 1)
 		}
